@@ -134,6 +134,10 @@ func (nw *Network) RunSchedule(sp ScheduleSpec) {
 			closeSecond = st
 			continue
 		}
+		if !sp.CloseLeaves {
+			place("leave")
+			continue
+		}
 		st := sp.Steps/10 + rng.Intn(sp.Steps*6/10+1)
 		acts[st] = append(acts[st], mAct{"leave"})
 		firstLeave = st
